@@ -169,6 +169,9 @@ class World:
             return ops.Join(Predicate.literal(True)).partial(self.operand(c["lhs"]), is_lhs=True).apply(rel)
         if f == "joinself":
             return rel.join(rel)
+        if f == "joinmx":
+            from lsst.daf.relation import _operations as ops
+            return ops.Join(min_columns=frozenset(build.tags(c["mn"])), max_columns=frozenset(build.tags(c["mx"]))).apply(rel, self.operand(c["rhs"]))
         if f == "chain":
             return rel.chain(self.operand(c["rhs"]))
         if f == "chainl":
@@ -189,10 +192,12 @@ class World:
             if f == "un":
                 op = build.unary_op(c["op"])
                 t = UnaryOperationRelation(operation=op, target=t, columns=frozenset(op.applied_columns(t)))
-            elif f in ("join", "joinl", "pjoinl", "joinself"):
-                other = t if f == "joinself" else self.operand(c["rhs"] if f == "join" else c["lhs"])
+            elif f in ("join", "joinl", "pjoinl", "joinself", "joinmx"):
+                other = t if f == "joinself" else self.operand(c["rhs"] if f in ("join", "joinmx") else c["lhs"])
                 lhs, rhs = (t, other) if f not in ("joinl", "pjoinl") else (other, t)
                 common = frozenset(x for x in lhs.columns & rhs.columns if x.is_key)
+                if f == "joinmx":
+                    common = common & frozenset(build.tags(c["mx"]))
                 p = c.get("p", {"p": "lit", "v": True})
                 jop = ops.Join(build.pred(p), min_columns=common, max_columns=common)
                 t = BinaryOperationRelation(operation=jop, lhs=lhs, rhs=rhs, columns=frozenset(lhs.columns | rhs.columns))
@@ -539,8 +544,8 @@ def worker(lines, ctx):
 CLAUSE_PROPS = {"wf": ["C14"], "den": ["C02"], "denbag": ["C02", "C17"], "denlist": ["C11"], "meta": ["C06"], "coh": ["C17"]}
 
 CONFIGS = {
-    "quick": [("SqlQuick.cfg", 6), ("SqlFocusQ.cfg", 4), ("SqlChainQ.cfg", 4)],
-    "thorough": [("SqlQuick.cfg", 2), ("SqlFocus.cfg", 4), ("SqlChain.cfg", 4), ("SqlGeneral.cfg", 8), ("SqlFocus5.cfg", 32)],
+    "quick": [("SqlQuick.cfg", 6), ("SqlFocusQ.cfg", 4), ("SqlChainQ.cfg", 4), ("SqlJoinQ.cfg", 4)],
+    "thorough": [("SqlQuick.cfg", 2), ("SqlJoinQ.cfg", 2), ("SqlFocus.cfg", 4), ("SqlChain.cfg", 4), ("SqlGeneral.cfg", 8), ("SqlFocus5.cfg", 32)],
 }
 
 
